@@ -66,6 +66,9 @@ enum COp {
 	StopStart,
 	/// pause() immediately followed by start(): the last one wins, the clock keeps running
 	PauseStart,
+	/// two or three of start (0) / pause (1) / stop (2) issued back to back between two callbacks: they reach the audio thread
+	/// together; the last one decides whether the clock ticks, and a stop anywhere in the burst resets the time
+	Burst(Vec<u8>),
 	SetSpeed { target: Sp, dur: f64, easing: Easing, sched: Sched },
 }
 
@@ -115,12 +118,13 @@ fn exact_time_case(ctx: &mut Ctx, idx: u64, r: &mut Rng) -> Result<(u64, bool), 
 	let mut paused_value: Option<ClockTime> = None;
 	for opi in 0..n_ops {
 		// ---- one operation on the clock, then 1..4 callbacks
-		let op = match r.below(12) {
+		let op = match r.below(14) {
 			0 | 1 | 2 => COp::Start,
 			3 => COp::Pause,
 			4 => COp::Stop,
 			10 => COp::StopStart,
 			11 => COp::PauseStart,
+			12 | 13 => COp::Burst((0..r.usize_in(2, 3)).map(|_| r.below(3) as u8).collect()),
 			_ => COp::SetSpeed {
 				target: Sp::gen(r),
 				dur: if r.chance(0.3) { 0.0 } else { r.f64_in(0.0, 0.2) },
@@ -168,6 +172,28 @@ fn exact_time_case(ctx: &mut Ctx, idx: u64, r: &mut Rng) -> Result<(u64, bool), 
 					clock.start();
 					ticking = true;
 					paused_value = None;
+				}
+				COp::Burst(b) => {
+					for k in b {
+						match k {
+							0 => {
+								clock.start();
+								ticking = true;
+								paused_value = None;
+							}
+							1 => {
+								clock.pause();
+								ticking = false;
+							}
+							_ => {
+								clock.stop();
+								ticking = false;
+								lo = 0.0;
+								hi = 0.0;
+								paused_value = None;
+							}
+						}
+					}
 				}
 				COp::SetSpeed { target, dur, easing, sched } => {
 					let start_time = match sched {
